@@ -67,7 +67,15 @@ def run_case(bib, kv, op, inplace, history=False):
                     mws.SortFieldsCustomMiddleware(order=("b",), allow_inplace_modification=inplace),
                     mws.NormalizeFieldKeys(allow_inplace_modification=inplace)):
             lib = pre.transform(lib)
+        # ... and through THIS middleware object as well (same library object, edited afterwards): a second call
+        # is a function of the library as it is then, not of what the object saw the first time
+        try:
+            r = mw.transform(lib)
+            lib = r if inplace else lib
+        except Exception:  # noqa
+            pass
         target = lib.blocks[1]
+        target.entry_type = "article"
         target.fields = [M.Field(k, v, i) for i, (k, v) in enumerate(kv)]
     before = proj_others(lib)
     try:
